@@ -1,14 +1,19 @@
 (* C16 glue: decode the harness's case, run Model/Component.v, render the observables.
    case kind 0: (0 id secret)                       -> (digest)
    case kind 1: (1 pre secret write_ok reply)       -> (text-read-by-server? err state events probe-routed)
-     pre   = (0) transport refused | (1) connect/stream header failed | (2 id)
+     pre   = (0) transport refused | (1) dial failed | (2 id)
+           | (3 bytes): the stream header as the server wrote it; the model reads it itself
+             (Model/StreamHeader.v init_stream): stream id, or connect failure
      reply = (0) handshake | (1 cond) stream error | (2 k) other packet | (3) read error/closed
+           | (4 tokens): the tokens NextPacket reads after the handshake; the model classifies
+             them itself (Model/Parser.v next_packet, Model/ComponentWire.v reply_of)
      err   = 0 nil | 1 ConnError non-permanent | 2 ConnError permanent
    case kind 2: (2 (id ...) secret)                 -> (digest ...)      one Component value, successive calls
    case kind 3: (3 ((id reply) ...) secret)         -> ((text-read-by-server? err state probe-routed) ...)
                                                        one Component value, successive connections *)
 From Coq Require Import List ZArith NArith Bool.
-From XV Require Import Lib.Sx Model.Sha1 Model.Hex Model.Component.
+From XV Require Import Lib.Sx Model.XmlTree Model.Sha1 Model.Hex Model.Component
+  Model.StreamHeader Model.ComponentWire.
 Import ListNotations.
 Open Scope Z_scope.
 
@@ -23,6 +28,22 @@ Definition dec_pre (x : sx) : option pre :=
   | SL [SZ 0] => Some PBadTransport
   | SL [SZ 1] => Some PConnectFail
   | SL [SZ 2; SS id] => Some (PConnected id)
+  | SL [SZ 3; SS hdr] => Some (pre_of_header hdr)
+  | _ => None
+  end.
+
+Definition dec_attr (x : sx) : option attr :=
+  match x with
+  | SL [SS ns; SS l; SS v] => Some ((ns, l), v)
+  | _ => None
+  end.
+
+Definition dec_token (x : sx) : option token :=
+  match x with
+  | SL [SZ 0; SS ns; SS l; attrs] => do a <- as_list dec_attr attrs; Some (TStart (ns, l) a)
+  | SL [SZ 1; SS ns; SS l] => Some (TEnd (ns, l))
+  | SL [SZ 2; SS s] => Some (TText s)
+  | SL [SZ 3] => Some TMisc
   | _ => None
   end.
 
@@ -32,12 +53,14 @@ Definition dec_reply (x : sx) : option reply :=
   | SL [SZ 1; SS c] => Some (RStreamError c)
   | SL [SZ 2; SZ k] => Some (ROther (Z.to_N k))
   | SL [SZ 3] => Some RReadError
+  | SL [SZ 4; toks] => do ts <- as_list dec_token toks; Some (reply_from_tokens ts)
   | _ => None
   end.
 
 Definition dec_session (x : sx) : option env :=
   match x with
   | SL [SS id; r] => do r' <- dec_reply r; Some (Env (PConnected id) true r')
+  | SL [SZ 3; SS hdr; r] => do r' <- dec_reply r; Some (Env (pre_of_header hdr) true r')
   | _ => None
   end.
 
@@ -69,7 +92,7 @@ Definition server_text (written : list str) : sx :=
   end.
 
 Definition session_sx (r : result) : sx :=
-  SL [server_text (r_written r); err_sx (r_err r); SN (cstate_num (r_state r)); SB (probe_routed r)].
+  SL [server_text (r_written r); err_sx (r_err r); SN (cstate_num (r_state r)); SB (r_recv r)].
 
 Definition run_typed (i : c16_input) : sx :=
   match i with
@@ -79,7 +102,7 @@ Definition run_typed (i : c16_input) : sx :=
   | InConnect secret e =>
       let r := component_connect secret e in
       SL [server_text (r_written r); err_sx (r_err r); SN (cstate_num (r_state r));
-          SL (map event_sx (r_events r)); SB (probe_routed r)]
+          SL (map event_sx (r_events r)); SB (r_recv r)]
   end.
 
 Definition run_C16 : sx -> sx := with_input dec_input run_typed.
